@@ -97,12 +97,6 @@ impl From<&CfgError> for SeverityLevel {
 
 impl DiagnosticLocation for CfgError {
     fn file(&self) -> uuid::Uuid {
-        #[cfg(feature = "rva_verif")]
-        if let CfgError::LabelsNotDefined(labels) = self {
-            if let Some(l) = crate::verif::pick_label("labels_not_defined", labels) {
-                return l.file();
-            }
-        }
         match self {
             CfgError::MultipleLabelsForReturn(node, _)
             | CfgError::NoLabelForReturn(node)
@@ -116,12 +110,6 @@ impl DiagnosticLocation for CfgError {
     }
 
     fn range(&self) -> crate::parser::Range {
-        #[cfg(feature = "rva_verif")]
-        if let CfgError::LabelsNotDefined(labels) = self {
-            if let Some(l) = crate::verif::pick_label("labels_not_defined", labels) {
-                return l.range();
-            }
-        }
         match self {
             CfgError::MultipleLabelsForReturn(node, _)
             | CfgError::NoLabelForReturn(node)
@@ -135,12 +123,6 @@ impl DiagnosticLocation for CfgError {
     }
 
     fn raw_text(&self) -> String {
-        #[cfg(feature = "rva_verif")]
-        if let CfgError::LabelsNotDefined(labels) = self {
-            if let Some(l) = crate::verif::pick_label("labels_not_defined", labels) {
-                return l.raw_text();
-            }
-        }
         match self {
             CfgError::MultipleLabelsForReturn(node, _)
             | CfgError::NoLabelForReturn(node)
